@@ -68,10 +68,12 @@ F = [
   [P+"invalid operation: .* \\(mismatched types .* and .*\\).*\\[same-underlying\\]"], "package main\n\ntype Str string\n\nvar s string\nvar t Str\n\nvar g = s == t\n", False),
  ("generic-uninst", "a generic function is accepted as a value without instantiation (`any(Sum)`)", "ast.go: conversion / assignment of an uninstantiated generic function value is not rejected",
   [P+"cannot use generic function .* without instantiation.*"], "package main\n\nfunc Id[T any](x T) T { return x }\n\nvar g = any(Id)\n", False),
+ ("init-cycle", "a package-level variable whose initialiser refers to itself (directly or through a cycle) is accepted (`var g bool = g`)", "the builder has no initialization-order analysis",
+  [P+"initialization cycle.*"], "package main\n\nvar g1 bool = g1\n", False),
 ]
 kf_path = os.path.join(ROOT, "known_findings.json")
 kf = json.load(open(kf_path))
-kf["findings"] = [f for f in kf["findings"] if not f["id"].startswith("F-C01-")]
+kf["findings"] = [f for f in kf["findings"] if not (f["id"].startswith("F-C01-") and f["status"] == "known")]
 for (name, what, root, sigs, src, xgo) in F:
     fid = "F-C01-" + name
     rp = f"replays/{fid}.json"
